@@ -22,6 +22,9 @@ type ReplayIn struct {
 	Choices  []uint64          `json:"choices"`
 	Values   map[string]uint64 `json:"values"`
 	Expect   *ReplayExpect     `json:"expect,omitempty"`
+	// Twice: run the scenario twice in one fresh process and report a difference between the two
+	// runs (native confirmation of a shared-state monitor hit: state leaked from run 1 into run 2)
+	Twice bool `json:"twice,omitempty"`
 }
 
 type ReplayExpect struct {
@@ -295,6 +298,7 @@ func checkMain(args []string) int {
 
 	validated := 0
 	violations := 0
+	twiceRuns := map[string]int{}
 	knownHits := map[string]bool{}
 	replayDir := filepath.Join(verifDir, "replays", prop)
 	os.RemoveAll(replayDir)
@@ -374,6 +378,21 @@ func checkMain(args []string) int {
 			for _, f := range out.Failed {
 				if strings.Contains(f, "concurrent") {
 					repro = true
+				}
+			}
+			if !repro && twiceRuns[v.Harness] < 3 {
+				// a fresh process of its own, the scenario run twice: the second run must
+				// observe exactly what the first did
+				twiceRuns[v.Harness]++
+				in2 := *p.in
+				in2.Twice = true
+				if o2, _, _ := nativeReplay(l, p.short, map[string]*ReplayIn{p.name: &in2}, false); o2[p.name] != nil {
+					for _, f := range o2[p.name].Failed {
+						if f == "shared-state.second_run_differs" {
+							repro = true
+							p.in.Twice = true
+						}
+					}
 				}
 			}
 		}
